@@ -4,7 +4,11 @@ import json
 import os
 import re
 import subprocess
+import sys
 from concurrent.futures import ThreadPoolExecutor
+
+if __name__ == "__main__":      # run as the parallel driver wrapper (see pardriver_main)
+    sys.path.insert(0, os.path.dirname(os.path.dirname(os.path.dirname(os.path.abspath(__file__)))))
 
 from vlib import build as B
 from vlib import core
@@ -202,7 +206,11 @@ def run_impl(built, cases, tier):
     side = os.path.join(core.run_dir(), "c25-raw-%d.txt" % len(os.listdir(core.run_dir())))
     with open(side, "w") as f:
         f.write("\n".join(raw) + "\n")
-    built["driver"] = built["driver"][:2] + [side]
+    # the model driver is run through pardriver_main below: several driver processes side by side (the extracted
+    # model spends ~2 ms per message on byte lists), each with a large stack (non-tail-recursive list functions on
+    # lists of a few megabytes); argv = python this-file --pardriver driver metadata side-file
+    base = built.setdefault("driver_base", list(built["driver"][:2]))
+    built["driver"] = [sys.executable, os.path.abspath(__file__), "--pardriver"] + base + [side]
     return canon
 
 
@@ -415,3 +423,62 @@ def extra_evidence(ctx):
         for k in re.findall(r" RACE (\S+)", r):
             races[k] = races.get(k, 0) + 1
     return {"messages_on_the_wire": msgs, "thread_count_distribution": threads, "tsan_race_sites": races}
+
+
+# ------------------------------------------------------------------------------------------------- parallel driver
+STACK = 'ulimit -s unlimited 2>/dev/null || ulimit -s 4000000 2>/dev/null; exec "$@"'
+
+
+def pardriver_main(argv):
+    """argv = driver metadata sidefile; stdin = the driver protocol lines.  Line k of the side file belongs to line k of
+    stdin.  The lines are dealt to a few driver processes (largest first), the answers are put back in order."""
+    drv, meta, side = argv
+    lines = sys.stdin.buffer.read().split(b"\n")
+    if lines and lines[-1] == b"":
+        lines.pop()
+    raws = open(side, "rb").read().split(b"\n")
+    raws += [b""] * (len(lines) - len(raws))
+    n = max(1, min(8, len(lines) // 4))
+    order = sorted(range(len(lines)), key=lambda i: -len(raws[i]))
+    shards, load = [[] for _ in range(n)], [0] * n
+    for i in order:
+        k = load.index(min(load))
+        shards[k].append(i)
+        load[k] += len(raws[i]) + 2000
+    procs = []
+    for k, sh in enumerate(shards):
+        sh.sort()
+        sf = "%s.%d" % (side, k)
+        with open(sf, "wb") as f:
+            f.write(b"\n".join(raws[i] for i in sh) + b"\n")
+        p = subprocess.Popen(["/bin/sh", "-c", STACK, "sh", drv, meta, sf], stdin=subprocess.PIPE, stdout=subprocess.PIPE)
+        procs.append((sh, p, b"\n".join(lines[i] for i in sh) + b"\n"))
+
+    def feed(x):
+        sh, p, inp = x
+        out, _ = p.communicate(inp)
+        return sh, p.returncode, out
+
+    res = [None] * len(lines)
+    rc = 0
+    with ThreadPoolExecutor(max_workers=n) as ex:
+        for sh, code, out in ex.map(feed, procs):
+            outs = out.split(b"\n")
+            if outs and outs[-1] == b"":
+                outs.pop()
+            if code != 0 or len(outs) != len(sh):
+                rc = 1
+            for i, o in zip(sh, outs):
+                res[i] = o
+    for k in range(n):
+        try:
+            os.remove("%s.%d" % (side, k))
+        except OSError:
+            pass
+    sys.stdout.buffer.write(b"".join((r if r is not None else b"MODEL-ERROR driver died\t0\t0") + b"\n" for r in res))
+    return rc
+
+
+if __name__ == "__main__":
+    if len(sys.argv) >= 5 and sys.argv[1] == "--pardriver":
+        sys.exit(pardriver_main(sys.argv[2:5]))
